@@ -32,6 +32,10 @@ def truth(v):
         cv = v.const_value()
         if cv is not None:
             return cv != 0
+        a = v.single_atom()
+        if a is not None and a[0] == 'app' and a[1] == 'or' and a[2] and isinstance(a[2][-1], Poly) and \
+                (a[2][-1].const_value() or 0) != 0:
+            return True
     return None
 
 
@@ -246,6 +250,8 @@ class ExprMixin:
             elif is_and and not t:
                 return v if not keep else FALSE
             elif not is_and and t:
+                if keep and isinstance(v, Poly) and v.const_value() is not None and all(isinstance(k, Poly) for k in keep):
+                    return app('or', *keep, v)        # `x or 1`: x where it is truthy, else the number (not a truth value)
                 return v if not keep else TRUE
         if not keep:
             return vals[-1]
